@@ -1,12 +1,16 @@
 // C09 - calls are reentrant, thread-safe and deterministic.
 #include "expert.hpp"
+#include "isolate.hpp"
 #include <thread>
 #include <atomic>
 #include <chrono>
+#include <unistd.h>
+#include <sys/wait.h>
+#include <signal.h>
 
 namespace vf {
 
-struct JobResult { uint64_t digest = 0; bool aborted = false; long long info = -999; long leaked = 0; double t0 = 0, t1 = 0; };
+struct JobResult { uint64_t digest = 0; bool aborted = false; long long info = -999; long leaked = 0; double t0 = 0, t1 = 0; bool tiny = false; bool equil = false; };
 
 static double now_s() { return std::chrono::duration<double>(std::chrono::steady_clock::now().time_since_epoch()).count(); }
 
@@ -25,6 +29,13 @@ template <class T> static JobResult run_job_T(unsigned kind, const uint8_t *d, s
     Opts o = gen_opts(c, n, single, true, true);
     if (cplx && o.nr && o.trans == CONJ && known.count("F07")) o.trans = TRANS;
     int nrhs = 1 + (int)c.below(2);
+    // some problems live at the bottom of the exponent range (A and b scaled by the same power of two): thresholds of the
+    // "safe minimum" kind come into play there, and they must not depend on what was solved before
+    double tiny = 1; { unsigned us = c.u8(); if (us >= 176) tiny = std::ldexp(1.0, single ? -(100 + (int)(us % 20)) : -(940 + (int)(us % 64))); }
+    if (tiny != 1) for (auto &col : G.col) for (auto &en : col) { en.second.re *= tiny; en.second.im *= tiny; }
+    if (tiny != 1 && (n & 1)) o.equil = false;   // equilibration would lift the problem out of the range of interest
+    jr.tiny = tiny != 1; jr.equil = o.equil;
+    auto scale_rhs = [&](std::vector<T> &B) { if (tiny != 1) for (auto &v : B) v = v * (R)tiny; };
     uint64_t h = 1469598103934665603ULL;
     vf_case_begin(0xA5);
     apply_tuning(o.tune);
@@ -32,7 +43,7 @@ template <class T> static JobResult run_job_T(unsigned kind, const uint8_t *d, s
     switch (kind % 6) {
     case 0: case 4: {   // simple driver / factor + solve
         Comp<T> S = to_comp<T>(G, kind % 6 == 0 ? o.nr : false, nullptr);
-        std::vector<T> B = gen_rhs<T>(c, n, nrhs, n, cplx);
+        std::vector<T> B = gen_rhs<T>(c, n, nrhs, n, cplx); scale_rhs(B);
         superlu_options_t so; set_default_options(&so); apply_opts(o, so); so.ColPerm = o.colperm == MY_PERMC ? COLAMD : o.colperm;
         std::vector<int> perm_r(n, -1), perm_c(n, -1), etree(n, -1);
         MatView<T> A; A.create(S); DenseView<T> Bv; Bv.create(n, nrhs, B.data(), n);
@@ -54,7 +65,7 @@ template <class T> static JobResult run_job_T(unsigned kind, const uint8_t *d, s
         break; }
     case 1: case 2: {   // expert driver with refinement and condition estimate / ILU driver
         Expert<T> e; e.init(n, nrhs, n, n); e.ilu = (kind % 6 == 2);
-        e.S = to_comp<T>(G, o.nr, nullptr); e.B = gen_rhs<T>(c, n, nrhs, n, cplx);
+        e.S = to_comp<T>(G, o.nr, nullptr); e.B = gen_rhs<T>(c, n, nrhs, n, cplx); scale_rhs(e.B);
         if (e.ilu) { IluOpts io = gen_ilu_opts(c); if ((io.droprule & DROP_SECONDARY) && known.count("F-ILU-WORK2")) io.droprule |= DROP_INTERP; ilu_set_default_options(&e.so); apply_opts(o, e.so); apply_ilu(io, e.so); e.so.IterRefine = NOREFINE; }
         else { apply_opts(o, e.so); e.so.IterRefine = SLU_DOUBLE; }
         e.so.ConditionNumber = YES; e.so.PivotGrowth = YES; e.so.ColPerm = o.colperm == MY_PERMC ? MMD_ATA : o.colperm;
@@ -108,34 +119,152 @@ static JobResult run_job(char type, unsigned kind, const uint8_t *d, size_t len,
     }
 }
 
-static void run(char, Choice &c, Ctx &cx)
+// ---- jobs of one case ------------------------------------------------------------------------------------------------
+struct Job { char type; unsigned kind; std::vector<uint8_t> bytes; unsigned skew; };
+static const char *kn[] = {"gssv", "gssvx+refine+cond", "gsisx", "get_perm_c+sp_preorder", "gstrf+gstrs", "ldperm"};
+static std::vector<Job> decode_jobs(Choice &c)
 {
     int njobs = 2 + (int)c.below(7);
-    struct Job { char type; unsigned kind; std::vector<uint8_t> bytes; unsigned skew; };
     std::vector<Job> jobs(njobs);
     static const char tl[] = "dszc";
-    static const char *kn[] = {"gssv", "gssvx+refine+cond", "gsisx", "get_perm_c+sp_preorder", "gstrf+gstrs", "ldperm"};
     for (auto &j : jobs) { j.type = tl[c.below(4)]; j.kind = c.below(6); size_t len = 24 + c.below(72); j.bytes.resize(len); for (auto &b : j.bytes) b = c.u8(); j.skew = c.u8(); }
-    cx.hash = fnv1a(c.d, c.consumed(), 0xC09ULL);
-    if (cx.dump) { cx.d(fmt("%d jobs", njobs)); for (int i = 0; i < njobs; ++i) cx.d(fmt("  job %d: type %c %s (%zu bytes, start skew %u)", i, jobs[i].type, kn[jobs[i].kind], jobs[i].bytes.size(), jobs[i].skew)); }
-    // (1) every job alone
-    std::vector<JobResult> alone(njobs), conc(njobs), again(njobs);
-    for (int i = 0; i < njobs; ++i) alone[i] = run_job(jobs[i].type, jobs[i].kind, jobs[i].bytes.data(), jobs[i].bytes.size(), cx.known);
-    // (2) all jobs concurrently; the only synchronisation between them is thread start / join
+    // "siblings": some later jobs call the same routine in the same arithmetic as job 0, on another problem - state that a
+    // routine keeps from its first call shows up when the second call is for a different size or scale
+    for (size_t k = 1; k < jobs.size(); ++k) if (jobs[k].skew & 1) { jobs[k].type = jobs[0].type; jobs[k].kind = jobs[0].kind; }
+    return jobs;
+}
+enum { MAXJOBS = 8 };
+struct CaseOut { int njobs; JobResult alone[MAXJOBS], conc[MAXJOBS], again[MAXJOBS]; };
+
+// every job alone (in order: job i runs after jobs 0..i-1 of this case), all jobs concurrently, all jobs again in reverse order
+static void run_case_local(const std::vector<Job> &jobs, const std::set<std::string> &known, CaseOut &o)
+{
+    int njobs = (int)jobs.size(); o.njobs = njobs;
+    for (int i = 0; i < njobs; ++i) o.alone[i] = run_job(jobs[i].type, jobs[i].kind, jobs[i].bytes.data(), jobs[i].bytes.size(), known);
     std::atomic<int> ready(0); std::atomic<bool> go(false);
     std::vector<std::thread> th;
     for (int i = 0; i < njobs; ++i) th.emplace_back([&, i] {
         ready++; while (!go.load()) {}
         volatile unsigned spin = 0; for (unsigned k = 0; k < jobs[i].skew * 200u; ++k) spin += k;
-        conc[i] = run_job(jobs[i].type, jobs[i].kind, jobs[i].bytes.data(), jobs[i].bytes.size(), cx.known);
+        o.conc[i] = run_job(jobs[i].type, jobs[i].kind, jobs[i].bytes.data(), jobs[i].bytes.size(), known);
     });
     while (ready.load() < njobs) {}
     go.store(true);
     for (auto &t : th) t.join();
-    // (3) history: the same jobs again, in reverse order, in this thread
-    for (int i = njobs - 1; i >= 0; --i) again[i] = run_job(jobs[i].type, jobs[i].kind, jobs[i].bytes.data(), jobs[i].bytes.size(), cx.known);
+    for (int i = njobs - 1; i >= 0; --i) o.again[i] = run_job(jobs[i].type, jobs[i].kind, jobs[i].bytes.data(), jobs[i].bytes.size(), known);
+}
+
+// ---- pristine processes ----------------------------------------------------------------------------------------------
+// "Whatever other problems were solved before" includes "none": state that a routine caches on its first call (a static
+// scratch value, a lazily computed constant) is frozen for the rest of a process, so comparing runs inside one long-lived
+// process cannot see it - and what it does see depends on all the cases evaluated before, which no saved input reproduces.
+// A helper process is therefore forked the first time a case is evaluated, before this process has called anything in the
+// library; it never calls the library itself.  Every case is evaluated in a grandchild forked from that untouched state
+// (so the history of a case is exactly its own jobs, and a replay sees the same), and single jobs are run in further
+// grandchildren as "first library call of a fresh process" references.
+struct Pristine {
+    int to = -1, from = -1; pid_t pid = -1; bool dead = false;
+    void start() {
+        int a[2], b[2]; if (pipe(a) || pipe(b)) { dead = true; return; }
+        pid = fork();
+        if (pid < 0) { dead = true; return; }
+        if (pid == 0) {
+            in_child() = true; signal(SIGALRM, SIG_DFL); signal(SIGPIPE, SIG_DFL); alarm(0);
+            close(a[1]); close(b[0]);
+            serve(a[0], b[1]); _exit(0);
+        }
+        close(a[0]); close(b[1]); to = a[1]; from = b[0];
+    }
+    static bool rd(int fd, void *p, size_t n) { char *q = (char *)p; while (n) { ssize_t k = read(fd, q, n); if (k <= 0) { if (k < 0 && errno == EINTR) continue; return false; } q += k; n -= (size_t)k; } return true; }
+    static bool wr(int fd, const void *p, size_t n) { const char *q = (const char *)p; while (n) { ssize_t k = write(fd, q, n); if (k <= 0) { if (k < 0 && errno == EINTR) continue; return false; } q += k; n -= (size_t)k; } return true; }
+    struct Req { char mode; char type; unsigned kind; unsigned len; unsigned nknown; };   // mode 'J': one job, 'C': a whole case (bytes = the case's stream)
+    struct Rep { int status; int sig; uint64_t digest; long long info; int aborted; };   // status 0 ok, 1 died, 2 no return within the limit
+    static void serve(int in, int out) {
+        for (;;) {
+            Req q; if (!rd(in, &q, sizeof q)) return;
+            std::vector<uint8_t> bytes(q.len); if (q.len && !rd(in, bytes.data(), q.len)) return;
+            std::set<std::string> known; for (unsigned i = 0; i < q.nknown; ++i) { unsigned l; if (!rd(in, &l, sizeof l)) return; std::string s(l, ' '); if (l && !rd(in, &s[0], l)) return; known.insert(s); }
+            int pp[2]; Rep r; r.status = 1; r.sig = 0; r.digest = 0; r.info = -999; r.aborted = 0; CaseOut co; std::memset((void *)&co, 0, sizeof co);
+            if (pipe(pp) == 0) {
+                pid_t g = fork();
+                if (g == 0) {
+                    close(pp[0]); alarm(q.mode == 'C' ? 100 : 30);
+                    Rep rr; rr.status = 0; rr.sig = 0; rr.digest = 0; rr.info = 0; rr.aborted = 0;
+                    if (q.mode == 'C') { Choice cc(bytes.data(), bytes.size()); std::vector<Job> jobs = decode_jobs(cc); CaseOut o; std::memset((void *)&o, 0, sizeof o); run_case_local(jobs, known, o); wr(pp[1], &rr, sizeof rr); wr(pp[1], &o, sizeof o); }
+                    else { JobResult jr = run_job(q.type, q.kind, bytes.data(), bytes.size(), known); rr.digest = jr.digest; rr.info = jr.info; rr.aborted = jr.aborted; wr(pp[1], &rr, sizeof rr); }
+                    _exit(0);
+                }
+                close(pp[1]);
+                if (g > 0) {
+                    Rep rr; bool got = rd(pp[0], &rr, sizeof rr); if (got && q.mode == 'C') got = rd(pp[0], &co, sizeof co);
+                    int st = 0; while (waitpid(g, &st, 0) < 0 && errno == EINTR) {}
+                    if (got && WIFEXITED(st) && WEXITSTATUS(st) == 0) r = rr;
+                    else { r.status = (WIFSIGNALED(st) && WTERMSIG(st) == SIGALRM) ? 2 : 1; r.sig = WIFSIGNALED(st) ? WTERMSIG(st) : -WEXITSTATUS(st); }
+                }
+                close(pp[0]);
+            }
+            if (!wr(out, &r, sizeof r)) return;
+            if (q.mode == 'C' && !wr(out, &co, sizeof co)) return;
+        }
+    }
+    bool ask(char mode, char type, unsigned kind, const uint8_t *bytes, size_t len, const std::set<std::string> &known, Rep &r, CaseOut *co) {
+        if (dead) return false;
+        Req q; q.mode = mode; q.type = type; q.kind = kind; q.len = (unsigned)len; q.nknown = (unsigned)known.size();
+        bool ok = wr(to, &q, sizeof q) && (len == 0 || wr(to, bytes, len));
+        for (auto &k : known) { unsigned l = (unsigned)k.size(); ok = ok && wr(to, &l, sizeof l) && (l == 0 || wr(to, k.data(), l)); }
+        ok = ok && rd(from, &r, sizeof r);
+        if (ok && mode == 'C') ok = rd(from, co, sizeof *co);
+        if (!ok) dead = true;
+        return ok;
+    }
+};
+static Pristine &pristine() { static Pristine p; static bool started = false; if (!started) { started = true; signal(SIGPIPE, SIG_IGN); p.start(); } return p; }
+
+#if defined(__has_feature)
+#if __has_feature(thread_sanitizer)
+#define VF_TSAN_BUILD 1
+#endif
+#endif
+
+static void run(char, Choice &c, Ctx &cx)
+{
+#ifdef VF_TSAN_BUILD
+    // ThreadSanitizer stops tracking memory accesses in a forked child (observed: a seeded race on a static buffer goes
+    // unreported there), so in this build every case runs in this process, as the race detector needs; the fresh-process
+    // comparisons belong to the ASan build.
+    const bool own_process = false;
+#else
+    const bool own_process = !in_child();
+#endif
+    Pristine &pr = pristine();   // forked before this process first enters the library
+    std::vector<Job> jobs = decode_jobs(c);
+    int njobs = (int)jobs.size();
+    cx.hash = fnv1a(c.d, c.consumed(), 0xC09ULL);
+    if (cx.dump) { cx.d(fmt("%d jobs", njobs)); for (int i = 0; i < njobs; ++i) cx.d(fmt("  job %d: type %c %s (%zu bytes, start skew %u)", i, jobs[i].type, kn[jobs[i].kind], jobs[i].bytes.size(), jobs[i].skew)); }
+    CaseOut co; std::memset((void *)&co, 0, sizeof co);
+    Pristine::Rep rep;
+    // (1)-(3) the case itself, in a process whose only history is this case
+    if (own_process && pr.ask('C', 0, 0, c.d, std::min(c.n, c.consumed()), cx.known, rep, &co)) {
+        if (rep.status != 0) VF_FAIL(cx, rep.status == 2 ? "hang" : "crash", "the case %s in its own process (%s %d); a sanitizer report, if any, is in the log", rep.status == 2 ? "did not finish within 100 s" : "died", rep.sig > 0 ? "signal" : "exit code", rep.sig > 0 ? rep.sig : -rep.sig);
+        cx.label("case-in-own-process");
+    } else { run_case_local(jobs, cx.known, co); cx.label("case-in-this-process"); }
+    const JobResult *alone = co.alone, *conc = co.conc, *again = co.again;
+    // (1b) one job of every case - and every refinement job near the underflow threshold - as the first library call of a fresh process
+    int pj0 = (int)(fnv1a(c.d, c.consumed(), 77) % (uint64_t)njobs); bool fresh_compared = false;
+    for (int pj = 0; pj < njobs && own_process; ++pj) {
+        if (pj != pj0 && !(alone[pj].tiny && jobs[pj].kind == 1)) continue;
+        if (pr.ask('J', jobs[pj].type, jobs[pj].kind, jobs[pj].bytes.data(), jobs[pj].bytes.size(), cx.known, rep, nullptr)) {
+            if (rep.status != 0) VF_FAIL(cx, "fresh-process", "job %d (type %c, %s) %s when run as the first library call of a fresh process, but returned after %d other job(s)", pj, jobs[pj].type, kn[jobs[pj].kind], rep.status == 2 ? "did not return within 30 s" : "crashed", pj);
+            if (rep.digest != alone[pj].digest) VF_FAIL(cx, "fresh-process-differs", "job %d (type %c, %s): output digest %016llx as the first library call of a fresh process but %016llx after the %d job(s) before it (info %lld vs %lld, aborted %d vs %d)", pj, jobs[pj].type, kn[jobs[pj].kind],
+                                                        (unsigned long long)rep.digest, (unsigned long long)alone[pj].digest, pj, rep.info, alone[pj].info, rep.aborted, (int)alone[pj].aborted);
+            fresh_compared = true;
+            if (alone[pj].tiny && jobs[pj].kind == 1) cx.label(alone[pj].equil ? "fresh-reference:refinement-near-underflow(equilibrated)" : "fresh-reference:refinement-near-underflow");
+        }
+    }
+    if (fresh_compared) cx.label("fresh-process-reference"); else cx.label("fresh-process-unavailable");
     int overlapping = 0; std::set<unsigned> kinds_overlapping;
     for (int i = 0; i < njobs; ++i) for (int j = 0; j < njobs; ++j) if (i != j && conc[i].t0 < conc[j].t1 && conc[j].t0 < conc[i].t1) { overlapping++; kinds_overlapping.insert(jobs[i].kind); break; }
+    int siblings = 0;
     for (int i = 0; i < njobs; ++i) {
         if (alone[i].digest != conc[i].digest) VF_FAIL(cx, "concurrent-differs", "job %d (type %c, %s): output digest %016llx when run concurrently with %d other job(s) but %016llx when run alone (info %lld vs %lld, aborted %d vs %d)", i, jobs[i].type, kn[jobs[i].kind],
                                                        (unsigned long long)conc[i].digest, njobs - 1, (unsigned long long)alone[i].digest, conc[i].info, alone[i].info, (int)conc[i].aborted, (int)alone[i].aborted);
@@ -143,7 +272,9 @@ static void run(char, Choice &c, Ctx &cx)
                                                         (unsigned long long)again[i].digest, (unsigned long long)alone[i].digest);
         cx.label(std::string("job=") + kn[jobs[i].kind]);
         if (alone[i].aborted) cx.label("job-aborted(deterministically)");
+        if (i > 0 && jobs[i].type == jobs[0].type && jobs[i].kind == jobs[0].kind) ++siblings;
     }
+    if (siblings) cx.label("sibling-jobs(same routine, other problem)");
     cx.label(fmt("threads=%d", njobs)); cx.label(fmt("overlapping=%d", std::min(overlapping, 8)));
     cx.nontrivial = overlapping >= 2 && kinds_overlapping.size() >= 2;
 }
@@ -153,6 +284,8 @@ const PropInfo vf_prop = {
     "2..8 independent jobs of mixed arithmetic type, each a generated call of ?gssv, ?gssvx with refinement + condition estimate + growth, ?gsisx, get_perm_c + sp_preorder, ?gstrf + ?gstrs, or ?ldperm; each job is run alone, then all jobs concurrently on their own threads "
     "(generated start skew; no synchronisation but thread start/join), then again in reverse order in one thread; oracle: the digest of all defined outputs (X, factors, permutations, etree, rcond, growth, ferr, berr, scale factors, info, refinement steps) of every job is bit-identical in the three runs; "
     "in the ThreadSanitizer build any reported data race ends the process and is a violation (happens-before detection does not need the bad interleaving to occur); "
+    "every case is evaluated in a process forked from a helper that never entered the library (its history is exactly the case's own jobs, so a replay sees the same), about a third of the later jobs are 'siblings' of job 0 (same routine and arithmetic, other problem), "
+    "15% of the problems are scaled to the bottom of the exponent range, and one job per case plus every refinement job of that kind is also run as the first library call of a fresh process and must give the same digest (state cached on a first call); "
     "non-trivial = at least two threads overlapping in time running jobs of at least two kinds (measured with timestamps outside the oracle); distinct = hash of consumed stream prefix",
     run, "d"};
 
